@@ -20,6 +20,10 @@ func init() {
 }
 
 func runC08(c *eng.Ctx) {
+	c.Rule("R01.6", "K1")
+	ruleSearchPredicates(c)
+	c.Rule("R01.9", "K5")
+	ruleReaderStartsInsideItsSegment(c)
 	c.Rule("R05.8", "K2")
 	ruleRebuildIndexAcceptsGaps(c)
 	p := c.P
